@@ -2,6 +2,7 @@
 from __future__ import annotations
 
 import importlib
+import os
 import sys
 import time
 
@@ -32,15 +33,16 @@ def main(argv):
         if not any(p in key for p in pats):
             continue
         t0 = time.time()
-        rep = verify_function(pkg, c, summaries, schema)
+        rep = verify_function(pkg, c, summaries, schema,
+                              inline_only=set(getattr(c, "inline", ())))
         print(f"== {key}  paths={rep.paths} checks={rep.feasibility_checks} "
               f"wall={time.time()-t0:.1f}s")
         for o in rep.obligations.values():
             line = f"   [{o.status:9}] {o.oid}  vcs={o.n_vcs} {o.solver_ms:.0f}ms {o.solver}"
             if o.status != "proved":
                 line += f"\n       {o.detail}"
-                if o.model:
-                    ms = {k: v for k, v in list(o.model.items())[:25]}
+                if o.model and os.environ.get("PYVC_SHOW_MODEL"):
+                    ms = {k: v for k, v in list(o.model.items())[:40]}
                     line += f"\n       model: {ms}"
             print(line)
         for k, n in rep.case_hits.items():
